@@ -225,7 +225,7 @@ Section JoinProof.
   Proof.
     intros Hfb Hok. destruct ev as [f rx n now | m | f rx an na]; cbn [jstep honoured].
     - destruct (ds_row st) as [r|] eqn:Hr.
-      + destruct (l_uplink_summary E D apps st f rx n now r Hr Hfb Hok) as (r' & _ & _ & F & Nn & _). repeat split; auto; discriminate.
+      + destruct (l_uplink_summary E D (fun k b => proj1 (E_block k b)) apps st f rx n now r Hr Hfb Hok) as (r' & _ & _ & F & Nn & _). repeat split; auto; discriminate.
       + unfold l_uplink. rewrite Hr. cbn. repeat split; auto; discriminate.
     - destruct (lsub_props st m) as (_ & _ & L3). split; [auto|]. split; [|intros; discriminate].
       intros _. unfold l_create_downstream. destruct (existsb _ _); reflexivity.
@@ -284,7 +284,7 @@ Section JoinProof.
     destruct (jstep_nonces cfg apps st ev Hfb Hev) as (F & _ & _).
     rewrite Hr.
     destruct ev as [f rx n now | m | f rx an na]; cbn [jstep] in *.
-    - destruct (l_uplink_summary E D apps st f rx n now r Hr Hfb Hev) as (r' & R' & S' & _).
+    - destruct (l_uplink_summary E D (fun k b => proj1 (E_block k b)) apps st f rx n now r Hr Hfb Hev) as (r' & R' & S' & _).
       destruct (IH _ r' R' F Ht) as (rf & Rf & Kf). exists rf. split; [exact Rf|]. rewrite Kf.
       f_equal. unfold session_keys. destruct S' as (_ & A & _ & B & C & _). congruence.
     - destruct (lsub_props st m) as (L1 & _ & _).
